@@ -54,7 +54,12 @@ func VH_C16() {
 	if probes > 8 {
 		probes = 8
 	}
+	nonMember := vf.Param("NONMEMBER", 0) == 1
 	for i := 0; i < probes; i++ {
+		if nonMember {
+			// a lookup of some other key (any answer is allowed) must not disturb later lookups
+			_ = f.Contains(string([]byte{vf.Byte(fmt.Sprintf("other%d_0", i)), vf.Byte(fmt.Sprintf("other%d_1", i)), 'x'}))
+		}
 		vf.Assert("C16.member", f.Contains(users[i]))
 	}
 	// once more, in reverse order, after all the other queries
